@@ -12,11 +12,14 @@ REGISTRATION = {
     "technique": "Lean 4 proof (total decoder model with explicit panic/allocation outcomes) + differential correspondence on mutated files",
     "category": "proof",
     "text": "The GGUF decoder is modelled as a total Lean function whose outcomes include every Go panic site and every "
-            "input-sized allocation; theorems: the decoder model never panics and never makes an allocation above the "
-            "budget under explicit decidable guards (decode_safe_partial), with a kernel-checked witness file for every "
-            "guard that the pinned code really lacks (known findings), and termination by construction. Outcome classes of "
-            "model and real decoder are compared on thousands of mutated/truncated/crafted files per run in a "
-            "memory-limited worker process.",
+            "input-sized allocation, with one flag per validation the decoder performs. Theorems: with the validations "
+            "the working tree has (all ten, after the fix commits; Guards.tree) the decoder never panics and never makes an "
+            "allocation above the budget, for every byte string, array limit and budget (decode_safe_tree, unconditional); "
+            "the same under explicit decidable guards for any subset of validations (decode_safe_partial), with a "
+            "kernel-checked witness file for every validation upstream's pinned code lacks; termination by construction. "
+            "Which validations the tree has is not asserted: outcome classes of model(Guards.tree) and real decoder are "
+            "compared on thousands of mutated/truncated/crafted files per run in a memory-limited worker process, with a "
+            "directed search (length fields near 2^61..2^64) around any disagreement.",
     "design_ref": "DESIGN.md §5 C10",
     "note": COMMON_NOTE + "Allocation is observed as TotalAlloc delta / fatal out-of-memory of the worker under RLIMIT_AS "
             "and compared as a class (a request between budget and 16x budget is accepted either way). The API-level "
